@@ -31,6 +31,9 @@ How C++ becomes Lean (assumptions of the translation, listed in the MANIFEST not
   * `for(i = X.begin(), end = X.end(); i != end;) switch(i->state) {…}` whose every path either does `i = X.remove(i); break;`
     or rewrites `i->state` and reaches `++i` -> `H.slotsFilterMap` with the per-node function read off the switch (fall-through
     included);
+  * `List<Slot>::Iterator i = X.begin(); … while(i != X.end() | end) { … }` whose body, for the node at `i`, either does
+    `i = X.remove(i); continue;` or rewrites `i->state` and reaches `++i` as its last statement -> the same `H.slotsFilterMap`
+    (`cursor_while`, `node_exec`: `if`s over `i->state` become an `if` chain over the node);
   * `a && b` with an assignment inside: nested `if`s in evaluation order; the value of `(x = y)` is y; `a || b` alike;
   * the condition C of a search loop: when C is, by its truth table over the comparisons in it, a conjunction of comparisons
     and negated comparisons, it is WRITTEN as that conjunction (comparisons oriented `node.field == value`, sorted) - so
@@ -188,7 +191,13 @@ class Parser:
                 raise Refuse(f"{self.fn}: `{tok}` with a value")
             self.eat(";")
             return (tok,)
-        if tok in ("while", "do", "goto", "delete", "new", "try", "throw"):
+        if tok == "while":
+            self.eat("while"); self.eat("(")
+            c = self.expr()
+            self.eat(")")
+            body = self.scoped(self.stmt)
+            return ("while", c, body)
+        if tok in ("do", "goto", "delete", "new", "try", "throw"):
             raise Refuse(f"{self.fn}: statement `{tok}` is outside the translated subset")
         if tok == ";":
             self.eat(";")
@@ -486,6 +495,12 @@ class Tr:
         if k == "decl":
             lines = []
             for name, e, ty in s[1]:
+                if e[0] == "mcall" and e[3] == "begin" and not e[4] and "Iterator" in ty:
+                    Xc = self.ev(e[2], env, lines)
+                    if Xc.kind != "slist":
+                        self.refuse(f"`{name}`: iterator over something else than a slot list outside a for loop")
+                    env[name] = V("cursor", of=Xc)
+                    continue
                 v = self.ev(e, env, lines)
                 if v.kind in ("sigit", "lit") and "Iterator" not in ty:
                     self.refuse(f"`{name}`: an iterator stored in a non-iterator")
@@ -510,9 +525,75 @@ class Tr:
                 self.refuse("loop in a constructor")
             body = self.loop(s, dict(env), ind + "  ")
             return f"{ind}let h :=\n{body}\n" + self.tr(rest, cont, env, ind)
+        if k == "while":
+            if self.S != "h":
+                self.refuse("loop in a constructor")
+            body = self.cursor_while(s, env, ind + "  ")
+            return f"{ind}let h :=\n{body}\n" + self.tr(rest, cont, env, ind)
         if k == "switch":
             self.refuse("`switch` outside the understood loop form")
         self.refuse(f"statement kind {k}")
+
+    # --- `i = X.begin(); … while(i != X.end()) { … }` over a slot list: every node is visited once; the body either removes the
+    #     node (`i = X.remove(i); continue;`) or rewrites its state and reaches `++i` at the end
+    def cursor_while(self, s, env, ind):
+        _, cond, body = s
+        if not (cond[0] == "ne" and cond[1][0] == "id"):
+            self.refuse("while condition is not `i != end`")
+        name = cond[1][1]
+        cur = env.get(name)
+        if cur is None or cur.kind != "cursor":
+            self.refuse("while loop whose variable is no iterator declared as `X.begin()`")
+        lines = []
+        e = self.ev(cond[2], env, lines)
+        if lines or e.kind != "end" or e.of != cur.of.key():
+            self.refuse("while condition does not compare with the end of the list the iterator walks")
+        X = cur.of
+        self.mutate("slist")
+        stmts = body[1] if body[0] == "block" else [body]
+        x = self.fresh("x")
+        f = self.node_exec(stmts, None, name, X, env, x)
+        del env[name]        # the iterator is at the end now
+        return f"{ind}H.slotsFilterMap h {X.e} {X.g} (fun {x} => {f})"
+
+    def node_exec(self, stmts, cont, name, X, env, x):
+        """what one round of the loop body does to the node `x`: `none` = removed, `some x'` = kept (rewritten)"""
+        if not stmts:
+            if cont is None:
+                self.refuse("the loop body ends without `++i`")
+            return self.node_exec(cont[0], cont[1], name, X, env, x)
+        st, rest = stmts[0], stmts[1:]
+        if st[0] == "block":
+            return self.node_exec(st[1], (rest, cont), name, X, env, x)
+        if st[0] == "if":
+            env1 = dict(env)
+            env1[name] = V("sval", x=x)
+            c = self.pure_bool(st[1], env1)
+            a = self.node_exec([st[2]], (rest, cont), name, X, env, x)
+            b = self.node_exec([st[3]], (rest, cont), name, X, env, x)
+            return f"(if {c} then {a} else {b})"
+        if st[0] == "expr":
+            e = st[1]
+            if e == ("preinc", ("id", name)):
+                if rest or cont not in (None,) and any(c for c in self.flatten(cont)):
+                    self.refuse("statements after `++i`")
+                return f"some {x}"
+            if (e[0] == "assign" and e[1] == ("id", name) and e[2][0] == "mcall" and e[2][3] == "remove"
+                    and e[2][4] == [("id", name)] and self.ev(e[2][2], env, []).key() == X.key()):
+                if rest[:1] != [("continue",)] or rest[1:]:
+                    self.refuse("`i = X.remove(i)` is not followed by `continue`")
+                return "none"
+            if e[0] == "assign" and e[1] == ("member", "->", ("id", name), "state") and e[2][0] == "qname" and e[2][1][-1] in STATES:
+                inner = self.node_exec(rest, cont, name, X, env, x)
+                return f"(let {x} := {{ {x} with state := .{e[2][1][-1]} }}; {inner})"
+        self.refuse("statement inside the cursor loop outside the understood forms")
+
+    def flatten(self, cont):
+        out = []
+        while cont is not None:
+            out += cont[0]
+            cont = cont[1]
+        return out
 
     # --- conditions: text of an `if … then … else …` of type State; side effects of the condition are emitted in order
     def cond(self, e, env, ind, then_, else_):
